@@ -546,6 +546,35 @@ impl Group for Trace {
                 }
             }
         }
+        // every Package and every Post extension once per response, highest priority first (the reference map of `c16.ops`)
+        {
+            let p: Vec<&str> = line.split(' ').collect();
+            let reference = |ops: &str| -> Option<Vec<usize>> {
+                let mut map = std::collections::BTreeMap::<i64, usize>::new();
+                for op in parse_list(ops)? {
+                    let f: Vec<&str> = op.split(':').collect();
+                    let pr: i64 = f.get(1)?.parse().ok()?;
+                    if f[0] == "r" {
+                        map.remove(&pr);
+                    } else if f.get(2) == Some(&"1") {
+                        let mut q = pr;
+                        while map.contains_key(&q) { q -= 1; }
+                        map.insert(q, f.get(3)?.parse().ok()?);
+                    } else {
+                        map.insert(pr, f.get(3)?.parse().ok()?);
+                    }
+                }
+                Some(map.iter().rev().map(|(_, t)| *t).collect())
+            };
+            for (kind, ops) in [("package", p.get(2)), ("post", p.get(3))] {
+                if let Some(want) = ops.and_then(|o| reference(o)) {
+                    let got: Vec<usize> = l.iter().filter_map(|e| e.strip_prefix(kind).and_then(|t| t.parse().ok())).collect();
+                    if got != want && !out.starts_with("noresponse") {
+                        return Some((format!("run-order:{line}"), format!("the {kind} extensions mounted are {want:?} (highest priority first); they ran as {got:?}")));
+                    }
+                }
+            }
+        }
         // the path-bound Prepare before the predicate-bound ones; among those the accepting one of highest priority
         {
             let p: Vec<&str> = line.split(' ').collect();
